@@ -27,6 +27,7 @@ PROPS = {
     "C03": "vf.harness.C03",
     "C04": "vf.harness.C04",
     "C06": "vf.harness.C06",
+    "C07": "vf.harness.C07",
 }
 
 
@@ -103,6 +104,11 @@ def worker(job):
                 f["reproduced"] = False
                 f["replay_error"] = f"{type(e).__name__}: {e}"
         if hasattr(inst2, "js_triples"):
+            for s_ in out["samples"]:  # concrete re-run of sampled confirmed paths
+                try:
+                    run_concrete(inst2.body, s_["inputs"])
+                except Exception:
+                    pass
             out["js_triples"] = inst2.js_triples(
                 [s_["witness"] for s_ in out["samples"]] + [f["witness"] for f in out["failures"][:5]]
             )
